@@ -334,7 +334,7 @@ class SpawnProcess(multiprocessing.context.SpawnProcess):
         Same behavior as the standard lib, except that if the process
         terminates with an exception, the exception is raised.
         """
-        super().join(timeout=timeout)
+        self._join_process_(timeout)
         if not self.done():
             # timed out
             return
@@ -362,6 +362,17 @@ class SpawnProcess(multiprocessing.context.SpawnProcess):
         # For a little more info on the error codes, see
         #   https://www.gnu.org/software/libc/manual/html_node/Error-Codes.html
 
+    def _join_process_(self, timeout=None):
+        super().join(timeout=timeout)
+        if timeout is None:
+            # The child has exited. The result-collector thread may be polling
+            # `exitcode` at this very moment (when the child died without
+            # delivering an outcome); of two concurrent `waitpid` calls only one
+            # gets the status, and the other one reports "not finished" until
+            # the winner has recorded it. Do not mistake that for a timeout.
+            while self.exitcode is None:
+                time.sleep(0.001)
+
     def done(self) -> bool:
         """
         Return ``True`` if the process has terminated normally or with exception.
@@ -382,7 +393,7 @@ class SpawnProcess(multiprocessing.context.SpawnProcess):
         """
         Behavior is similar to ``concurrent.futures.Future.exception``.
         """
-        super().join(timeout)
+        self._join_process_(timeout)
         if not self.done():
             raise TimeoutError
         self._result_collector_thread_.join()
